@@ -146,6 +146,14 @@ def body_family(kind, k, p):
         return body(big, [kind, kc, pc])
 
 
+def body_star(k):
+    return body(star(k), ["star", k])
+
+
+def body_concat(a, b):
+    return body(concat(list(a), list(b)), ["concat", list(a), list(b)])
+
+
 def replay(rec):
     import harness.e1_common as ec
     saved = ec.known_keys
@@ -166,10 +174,10 @@ def run(rep, tier):
     e1.run("harness.c16", parts, per_condition_timeout=T)
     if tier == "quick":
         spec = [("inflated", 4, 2, 2), ("inflated", 5, 2, 2), ("inflated", 6, 3, 2), ("padded", 4, 12), ("padded", 5, 12), ("padded", 6, 12), ("interleaved", 6),
-                ("interleaved", 4), ("interleaved", 5)]
+                ("interleaved", 4), ("interleaved", 5), ("star", 8), ("concat", 6, 5)]
     else:
         spec = [("inflated", n, k, 2) for n in range(4, 8) for k in range(2, n // 2 + 1)] + [("inflated", 8, 4, 2), ("inflated", 10, 5, 1),
-                ("inflated", 12, 6, 1)] + [("padded", n, 12) for n in (4, 5, 6)] + [("interleaved", n) for n in (4, 5, 6)]
+                ("inflated", 12, 6, 1)] + [("padded", n, 12) for n in (4, 5, 6)] + [("interleaved", n) for n in (4, 5, 6)] + [("star", 8), ("concat", 6, 6)]
     parts += pd.run_families(rep, "harness.c16", spec)
     e1.collect(rep, parts, "harness.c16")
     agg = {}
